@@ -230,7 +230,16 @@ def run_C09(ctx):
         cfg = "100000 1073741824 4 1073741824 1 %d" % rnd.choice(gen.CFG_RBUF)
         for fi, (fid, data) in enumerate(disk):
             full = ctx.thorough()
-            for pos in range(len(data)):
+            # quick tier: cap the work per file; all positions of small files, a spread sample of big ones
+            allpos = range(len(data))
+            if not ctx.thorough() and len(data) > 400:
+                keep = set(range(0, 120)) | set(range(len(data) - 60, len(data))) | set(rnd.sample(range(len(data)), 220))
+                # always the first bytes of every record (tag, ids, length prefixes)
+                o = 0
+                for (_, ro, rl) in im["recs"][fi][1]:
+                    keep |= set(range(ro, min(ro + 28, ro + rl)))
+                allpos = sorted(p for p in keep if p < len(data))
+            for pos in allpos:
                 vals = range(256) if full else ([data[pos] ^ (1 << b) for b in range(8)] + [0, 255])
                 for v in vals:
                     if v == data[pos]:
